@@ -4,7 +4,10 @@
    every step  <out>|H:<hosts sorted by key>|M:<MAC entries in slice order>|pt=<ok|panic>|inv=<0|1>
    joined by ";", plus a final dump "end" (taken after the harness has overwritten its receive buffer).  The notification channel is drained (and ignored) after every step.
    Kind t5s (large tables): the same, but the state is dumped only where the history carries the token "S" (and at
-   the end); every other op contributes its output alone. *)
+   the end); every other op contributes its output alone.
+   Kind t5q <cfg> <seed> <n> (concurrent executions under the supported pattern): the observation is the verdict of the
+   invariant oracle and of PrintTable at the quiescent point; no linearisation: the expected value is the constant
+   "inv=1|pt=ok" that C05_reachable / C05_printtable_no_panic give for every sequential history. *)
 From PV Require Import Base.Text Model.Tables Model.TablesShow Spec.HostTrackingInv.
 Open Scope string_scope.
 Open Scope N_scope.
@@ -38,7 +41,60 @@ Fixpoint run5s (c : cfg) (s : state) (toks : list string) : list string :=
            end
   end.
 
+(* ---- source-derived components (harness/cmd/c05/source.go) ----
+   the functions of the library that write a field of Host / MACEntry or one of the two tables, with the fields they
+   write, as the model's steps were transcribed from them:
+     Config.NewSession -> new_session;  Host.Update*Name -> update_name;  MACEntry.link (unused) / unlink, MACTable.delete,
+     Session.deleteHost -> delete_host;  MACTable.findOrCreate -> mac_new (find_or_create, capture);
+     Session.findOrCreateHostWithLock -> find_or_create;  Session.onlineTransition -> online_transition;
+     Session.makeOffline -> make_offline;  Session.notify -> notify_host;  Session.DHCPv4Update -> dhcp4_update;
+     Session.SetDHCPv4IPOffer -> set_offer;  Session.Capture / Release -> capture / release *)
+Definition writers_expected : list string :=
+  [ "Config.NewSession:IP4+IP6LLA+IsRouter+LastSeen+Online";
+    "Host.UpdateDHCP4Name:DHCP4Name+dirty"; "Host.UpdateLLMNRName:LLMNRName+dirty"; "Host.UpdateMDNSName:MDNSName+dirty";
+    "Host.UpdateNBNSName:NBNSName+dirty"; "Host.UpdateSSDPName:SSDPName+dirty";
+    "MACEntry.link:HostList"; "MACEntry.unlink:HostList";
+    "MACTable.delete:MACTable.Table"; "MACTable.findOrCreate:MACTable.Table+new(MACEntry)";
+    "Session.Capture:Captured"; "Session.DHCPv4Update:IP4Offer"; "Session.Release:Captured";
+    "Session.SetDHCPv4IPOffer:DHCP4Name+IP4Offer"; "Session.deleteHost:HostTable.Table";
+    "Session.findOrCreateHostWithLock:HostList+HostTable.Table+HuntStage+LastSeen+Manufacturer+dirty+new(Host)";
+    "Session.makeOffline:Online+dirty"; "Session.notify:dirty";
+    "Session.onlineTransition:IP4+IP6GUA+IP6LLA+Online+dirty" ].
+
+Definition consts_expected : string :=
+  "probe=" ++ dec_of_Z default_probe ++ ",offline=" ++ dec_of_Z default_offline ++ ",purge=" ++ dec_of_Z default_purge ++
+  ",maxprobe=" ++ dec_of_Z max_probe ++ ",maxoffline=" ++ dec_of_Z max_offline ++ ",maxpurge=" ++ dec_of_Z max_purge ++
+  ",probe<=offline=" ++ b01 (negb (deadlines_okb 3 2 1) && deadlines_okb 2 2 1) ++
+  ",purge-free=" ++ b01 (deadlines_okb 2 3 1 && deadlines_okb 1 3 2 && deadlines_okb 1 2 3) ++
+  ",chan=" ++ dec_of_N (N.of_nat chan_cap).
+
 Definition dispatch (kind : string) (args : list string) : string :=
+  if String.eqb kind "src" then
+    match args with
+    | [w] => if String.eqb w "writers" then out3 (join ";" writers_expected) "-" "-"
+             else if String.eqb w "consts" then out3 consts_expected "-" "-" else BADARGS
+    | _ => BADARGS
+    end
+  else if String.eqb kind "dl" then     (* dl <probe> <offline> <purge>: does NewSession accept these deadlines (seconds)? *)
+    match args with
+    | [p; o; u] => match Z_of_dec p, Z_of_dec o, Z_of_dec u with
+                   | Some p, Some o, Some u => out3 (if deadlines_okb p o u then "ok" else "err") "-" "-"
+                   | _, _, _ => BADARGS end
+    | _ => BADARGS
+    end
+  else
+  if String.eqb kind "t5q" then
+    match args with
+    | ctok :: _ :: _ :: [] =>
+        match cfg_of_tok ctok with
+        | Some c => match new_session c 0 with
+                    | Ok s0 => out3 ("inv=" ++ b01 (invb s0) ++ "|pt=" ++ show_res (fun _ => "ok") (print_table s0)) "-" "-"
+                    | _ => out3 "panic" "-" "-" end
+        | None => BADARGS
+        end
+    | _ => BADARGS
+    end
+  else
   if String.eqb kind "t5s" then
     match args with
     | ctok :: t0 :: optoks =>
